@@ -457,6 +457,26 @@ func run(c *h.Ctx, cs Case) {
 		r, where = back.(*invocation.Token).Meta(), "inv/decoded"
 	}
 	checkReader(c, r, cs, where)
+	// the byte slices a reader hands out are the caller's to extend: appending a trailer to the stored form of one
+	// entry (to build an over-long variant, to frame it for transport) writes into whatever capacity lies behind it -
+	// and that must not be another entry's ciphertext. Both entries read back under their key afterwards.
+	if where != "meta" {
+		for _, name := range []string{"secret", "secret2", "plain"} {
+			if b, err := r.GetBytes(name); err == nil && cap(b) > len(b) {
+				tail := b[len(b):cap(b)]
+				for i := range tail {
+					tail[i] ^= 0xee
+				}
+				c.P.Class("appended-into-capacity")
+			}
+		}
+		if got, err := get(r, cs, "secret", cs.Key); err != nil || !bytes.Equal(got, cs.Plain) {
+			c.Fail("C19/neighbour-overwritten/"+where, "after the caller appended to the byte slices GetBytes returned for the other entries, entry \"secret\" reads back as %d bytes / %v instead of the %d-byte value", len(got), err, len(cs.Plain))
+		}
+		if got, err := r.GetEncryptedBytes("secret2", cs.Key); err != nil || !bytes.Equal(got, second(cs.Plain)) {
+			c.Fail("C19/neighbour-overwritten/"+where, "after the caller appended to the byte slices GetBytes returned for the other entries, entry \"secret2\" reads back as %d bytes / %v", len(got), err)
+		}
+	}
 	for name, b := range map[string][]byte{"sealed": sealed, "dagjson": sealedJSON} {
 		if form := containsAnyForm(b, cs.Plain); form != "" {
 			c.Fail("C19/plaintext-in-token/"+name, "the plaintext appears (%s) in the %s token", form, name)
